@@ -171,8 +171,10 @@ def check_unfolded(ctx, P, path_ids, seg_table, U, update_ids, label):
         if (o.start is not None and id(o.start) not in pt_ids) or (o.end is not None and id(o.end) not in pt_ids):
             ctx.violation("unfolded-object-time-points-leave-the-copy", f"{type(o).__name__} start/end is not a point of the unfolded part", w)
             return
-        for attr in getattr(o, "_ref_attrs", []):
+        for attr in list(getattr(o, "_ref_attrs", [])) + ["ref", "fermata", "beam"]:
             v = getattr(o, attr, None)
+            if isinstance(v, (str, int, float)):
+                continue
             for t in (v if isinstance(v, list) else [v]):
                 if t is not None and id(t) in originals:
                     ctx.violation("unfolded-reference-leaves-the-copy", f"{type(o).__name__}.{attr} of the unfolded part refers to an object of the original part", w)
@@ -230,7 +232,9 @@ def judge_unmodified(ctx, arg, token, fname):
     nos1 = snapshot.snap(arg, drop_classes=("Segment",))
     if nos1 == nos0:
         # only Segment objects were added / changed
-        had = any(r[0] == "Segment" for r in full0.records)
+        import collections as _c
+        added = _c.Counter(r[0] for r in full1.records) - _c.Counter(r[0] for r in full0.records)
+        had = not added.get("Segment")
         if had:
             ctx.violation("segment-destinations-rewritten-on-argument", f"{fname} changed Segment objects registered on the argument: "
                           f"{snapshot.diff(full0, full1)[:3]}", {"function": fname})
@@ -279,6 +283,10 @@ def build(rng, nav_allowed=True):
                     n_ = S.Note(rng.choice("CDEFGAB"), rng.choice([4, 5]), rng.choice([None, 1, -1]), id=f"n{state['nid']}", voice=1, staff=1)
                     part.add(n_, pos, pos + d)
                     state["notes"].append(n_)
+                    if rng.random() < 0.06:
+                        fm = S.Fermata(n_)
+                        n_.fermata = fm
+                        part.add(fm, pos)
                     if rng.random() < 0.08:
                         g = S.GraceNote("acciaccatura", "D", 5, id=f"g{state['nid']}", voice=1, staff=1)
                         part.add(g, pos, pos)
